@@ -44,7 +44,8 @@ PROBES = ["kind:p2pk", "kind:p2pkh", "kind:multisig", "kind:p2sh-multisig", "kin
           "supply_dict", "supply_wifs", "supply_keychain", "coin_bch", "coin_btg", "coin_ltc", "coin_other",
           "wire_hex", "wire_bin", "wire_unspents", "txid_stable_after_witness_sign", "digest_at_seam_checked",
           "sighash_direct_256", "codeseparator_script", "noncommitted_change_still_valid", "committed_change_invalidates",
-          "revalidate_fresh_equal", "inputs>=253", "spendable_form_text", "spendable_form_dict", "spendable_form_bin"]
+          "revalidate_fresh_equal", "inputs>=253", "spendable_form_text", "spendable_form_dict", "spendable_form_bin", "wire_big_inputs", "wire_big_outputs",
+          "wire_big_out_script", "wire_big_in_script", "wire_big_witness_item", "wire_big_witness_count"]
 
 _STD = None
 
@@ -130,7 +131,7 @@ def gen_plan(rng, tier, index, config=None):
     allkeys = list(range(len(keys)))
     while len(steps) < nsteps:
         op = r.weighted([("sign", 8), ("send", 3), ("validate", 5), ("tamper", 5), ("revert", 2), ("sighash", 2),
-                         ("readonly", 1), ("permute", 1), ("fork", 1), ("spendables", 1)])
+                         ("readonly", 1), ("permute", 1), ("fork", 1), ("spendables", 1), ("wire_big", 0.4)])
         cp = "c%d" % r.below(ncopies)
         if op == "sign":
             sub = r.weighted([("all", 3), ("some", 5), ("one", 3), ("wrong", 1), ("none", 0.5)])
@@ -179,6 +180,9 @@ def gen_plan(rng, tier, index, config=None):
                           "seed": r.bits(32), "all256": r.chance(0.2), "ht": r.bits(8)})
         elif op == "readonly":
             steps.append({"op": "readonly", "copy": cp})
+        elif op == "wire_big":
+            steps.append({"op": "wire_big", "what": r.pick(["inputs", "outputs", "out_script", "in_script", "witness_item", "witness_count"]),
+                          "n": r.pick([0xFC, 0xFD, 0xFE, 0xFFFF, 0x10000, 0x10001, 300]), "seed": r.bits(32), "value": r.pick([0, 1, (1 << 64) - 1, r.bits(64)])})
         elif op == "spendables":
             steps.append({"op": "spendables", "copy": cp, "form": r.pick(["text", "dict", "bin"]), "bia": r.pick([0, 1, 500000]),
                           "spent": r.chance(0.2), "bis": r.pick([0, 0, 600000])})
@@ -636,7 +640,7 @@ def _op_sign(ctx, W, st):
                 pass
             continue
         spec = cp.specs[j] if j < len(cp.specs) else None
-        if spec is None or before_u[j] is None:
+        if spec is None or j >= len(before_u) or before_u[j] is None:
             continue
         if before_u[j]["script"] != _puzzle(W, spec)[0]:
             continue  # the recorded spent script was tampered with: the keys no longer match the puzzle
@@ -864,8 +868,9 @@ def _op_send(ctx, W, st):
             ctx.violate("C07", "unspents-extension-roundtrip", {"enc": enc})
     if ids[0] != mw.txid_hex(cp.m) or ids[1] != ids[0] or ids[2] != mw.wtxid(cp.m)[::-1].hex() or ids[3] != mw.txid(cp.m):
         ctx.violate("C07", "tx-id", {"id": ids[0], "expected": mw.txid_hex(cp.m), "w_id": ids[2]})
-    n = _Copy(got, gm, gu if with_u and all(u["value"] != 0 for u in cp.u) else copy.deepcopy(cp.u))
-    if not with_u or any(u["value"] == 0 for u in cp.u):
+    ext_ok = with_u and all(u["value"] != 0 for u in cp.u) and gu == cp.u
+    n = _Copy(got, gm, copy.deepcopy(cp.u))
+    if not ext_ok:
         # the receiver learns the spent outputs out of band (as spendables)
         try:
             got.set_unspents([None if u is None else W.Tx.TxOut(u["value"], u["script"]) for u in cp.u])
@@ -1224,6 +1229,59 @@ def _op_spendables(ctx, W, st):
                 return
 
 
+def _op_wire_big(ctx, W, st):
+    """a transaction built only to cross a compact-size boundary on the wire (never signed)"""
+    n, what = st["n"], st["what"]
+    x = hashlib.sha256(struct.pack("<I", st["seed"])).digest()
+
+    def blob(k):
+        return (x * (k // 32 + 1))[:k]
+
+    m = {"version": 2, "locktime": st["seed"] & 0xFFFFFFFF,
+         "ins": [{"prev": x, "idx": 1, "script": b"", "seq": 0xFFFFFFFE, "witness": []}],
+         "outs": [{"value": st["value"], "script": blob(25)}]}
+    if what == "inputs":
+        n = min(n, 300)
+        m["ins"] = [{"prev": hashlib.sha256(x + struct.pack("<I", j)).digest(), "idx": j, "script": b"", "seq": j, "witness": []} for j in range(n)]
+        if n >= 253:
+            ctx.probe("inputs>=253")
+    elif what == "outputs":
+        n = min(n, 300)
+        m["outs"] = [{"value": j, "script": blob(j % 40)} for j in range(n)]
+    elif what == "out_script":
+        m["outs"][0]["script"] = blob(n)
+    elif what == "in_script":
+        m["ins"][0]["script"] = blob(n)
+    elif what == "witness_item":
+        m["ins"][0]["witness"] = [b"", blob(n), b"\x01"]
+    else:
+        n = min(n, 300)
+        m["ins"][0]["witness"] = [blob(j % 5) for j in range(n)]
+    try:
+        tx = _mk_obj(W, m, [None] * len(m["ins"]))
+        raw = tx.as_bin()
+        back = W.Tx.from_bin(raw)
+        raw2 = back.as_bin()
+        hexed = W.Tx.from_hex(tx.as_hex()).as_bin()
+        ids = (tx.id(), tx.w_id())
+    except Exception as e:
+        ctx.violate("C07", "transport-raised", {"enc": "big:" + what, "n": n, "exc": type(e).__name__, "msg": str(e)[:200]})
+        return
+    ctx.probe("wire_big_" + what)
+    exp = mw.enc_tx(m)
+    ctx.obs("wire_big", what, n, len(raw))
+    if raw != exp:
+        k = next((i for i, (a, b) in enumerate(zip(raw, exp)) if a != b), min(len(raw), len(exp)))
+        ctx.violate("C07", "wire-bytes", {"enc": "big:" + what, "n": n, "first_difference_at": k, "got": raw[max(0, k - 4):k + 12].hex(),
+                                          "expected": exp[max(0, k - 4):k + 12].hex(), "len": [len(raw), len(exp)]})
+    if raw2 != raw or hexed != raw:
+        ctx.violate("C07", "reserialisation-differs", {"enc": "big:" + what, "n": n})
+    if mw.tx_from_pycoin(back) != m:
+        ctx.violate("C07", "parsed-fields-differ", {"enc": "big:" + what, "n": n})
+    if ids != (mw.txid_hex(m), mw.wtxid(m)[::-1].hex()):
+        ctx.violate("C07", "tx-id", {"id": ids[0], "expected": mw.txid_hex(m)})
+
+
 def _op_permute(ctx, W, st):
     """the same signing passes in two different orders on two fresh copies of the unsigned transaction"""
     base = W.copies.get("c0")
@@ -1255,7 +1313,7 @@ def _op_permute(ctx, W, st):
 
 _OPS = {"build": _op_build, "sign": _op_sign, "validate": _op_validate, "fork": _op_fork, "send": _op_send,
         "tamper": _op_tamper, "revert": _op_revert, "sighash": _op_sighash, "readonly": _op_readonly, "permute": _op_permute,
-        "spendables": _op_spendables}
+        "spendables": _op_spendables, "wire_big": _op_wire_big}
 
 
 def normal_form(plan):
